@@ -19,6 +19,10 @@ func init() {
 }
 
 // withModule returns a copy of g extended by one MIMO control gene over existing nodes
+// moduleLinkTraits makes withModule give the module links traits of the genome (set by the C06 runner only: the
+// file formats do not carry them)
+var moduleLinkTraits bool
+
 func withModule(r *rand.Rand, g *genetics.Genome, twice bool) *genetics.Genome {
 	c, err := genetics.VDuplicate(g, g.Id)
 	if err != nil {
@@ -58,6 +62,13 @@ func withModule(r *rand.Rand, g *genetics.Genome, twice bool) *genetics.Genome {
 		}
 		dst := c.Nodes[r.Intn(len(c.Nodes))]
 		cn.Outgoing = append(cn.Outgoing, network.NewLink(0.5, cn, dst, false))
+		if moduleLinkTraits && len(c.Traits) > 0 {
+			// module links that carry a trait of the genome (the readers never build such links, a caller can)
+			for _, l := range cn.Incoming {
+				l.Trait = c.Traits[r.Intn(len(c.Traits))]
+			}
+			cn.Outgoing[0].Trait = c.Traits[r.Intn(len(c.Traits))]
+		}
 		mods = append(mods, genetics.NewMIMOGene(cn, maxInnov+1+int64(m), 0.25*float64(m+1), r.Intn(4) != 0))
 	}
 	return genetics.NewModularGenome(c.Id, c.Traits, c.Nodes, c.Genes, mods)
@@ -167,9 +178,11 @@ func runC06(r *Run) error {
 		for k := 0; k < 6; k++ {
 			g := f.pick(r.Rng)
 			if k%3 == 2 {
+				moduleLinkTraits = h%2 == 1
 				if m := withModule(r.Rng, g, k == 5); m != nil {
 					g = m
 				}
+				moduleLinkTraits = false
 			}
 			c06One(r, o, g, f)
 		}
